@@ -311,6 +311,11 @@ Cases ==
                            \cup {c \in {C("invoke", nm, <<r, a, r>>) : r \in Pool, nm \in Arity2Names, a \in Small} : c.name \in Methods(c.ops[1].cls)}
                            \cup {C("index", "", <<x, x>>) : x \in Pool} \cup {C("binop", op, <<x, x>>) : op \in {"+", "<", "=="}, x \in Pool}
                            \cup {C("call", "", <<f, f>>) : f \in Pool}
+                           \* the index / the stored value / the other end of a range IS the indexed object (the rejection message prints it
+                           \* while the operation may still hold it)
+                           \cup {C("setindex", "", <<x, x, a>>) : x \in Pool, a \in {ById("n1")}}
+                           \cup {C("setindex", "", <<x, i, x>>) : x \in Pool, i \in Small}
+                           \cup {C("range", "", <<x, x>>) : x \in Pool} \cup {C("setprop", "x", <<r, r>>) : r \in Pool}
       [] Form = "fiberops" -> \* everything that can be done to a fiber or to the Fiber class (C09)
                            LET FR == Fibers \cup {ById("c_Fiber")} IN
                            {C("invoke", nm, <<r>>) : r \in FR, nm \in AllNames}
